@@ -332,6 +332,49 @@ def _merge_cases():
     return out
 
 
+def _alias_cases():
+    """A mux declared with the same component twice - once by name, once by its rail - plus
+    another input, in every order; first component alive or dead.  (exhaustive axis)"""
+    import itertools
+    out = []
+    for order in set(itertools.permutations(["S0", "rail:S0", "S1"])):
+        for v0 in (0.0, 12.0):
+            out.append({"order": list(order), "v0": v0})
+    return sorted(out, key=lambda c_: (c_["order"], c_["v0"]))
+
+
+def body_alias(case, stats):
+    import warnings
+    from sysloss.components import ILoad, PMux, Source
+    from sysloss.system import System
+    from vlib.props.c03 import _spec2
+
+    refs = ["R0" if x == "rail:S0" else x for x in case["order"]]
+    with warnings.catch_warnings():
+        warnings.simplefilter("ignore")
+        sys = System("alias", Source("S0", vo=case["v0"]), rail="R0")
+        sys.add_source(Source("S1", vo=5.0))
+        try:
+            sys.add_comp(refs, comp=PMux("M", rs=0.1))
+        except ValueError:
+            stats.cls("alias_parents_rejected")
+            stats.nontriv(jhash(case), sample=case)
+            return
+        sys.add_comp("M", comp=ILoad("L", ii=0.1))
+        sys.set_sys_phases({"a": 1.0, "b": 2.0})
+    distinct = list(dict.fromkeys("S0" if x == "rail:S0" else x for x in case["order"]))
+    spec = _spec2([("S0", "Source", [], {"vo": case["v0"]}), ("S1", "Source", [], {"vo": 5.0}),
+                   ("M", "PMux", distinct, {"rs": 0.1}), ("L", "ILoad", ["M"], {"ii": 0.1})])
+    spec["nodes"][0]["rail"] = "R0"
+    spec["phases"] = {"a": 1.0, "b": 2.0}
+    try:
+        body(spec, stats, sys=sys)
+    except Fail as f:
+        raise Fail("alias." + f.sig, "mux declared with inputs {}: {}".format(refs, f.msg))
+    stats.cls("alias_parents_accepted")
+    stats.nontriv(jhash(case), sample=case)
+
+
 def streams(tier, avoid):
     ren = st.fixed_dictionaries({
         "spec": mux_systems(avoid),
@@ -341,4 +384,5 @@ def streams(tier, avoid):
                    n={"quick": 350, "thorough": 2500}, reduce=S.reductions),
             Stream("renamed_inputs", body_renamed, strategy=ren,
                    n={"quick": 120, "thorough": 1000}),
-            Stream("merged_inputs", body_renamed, cases=_merge_cases())]
+            Stream("merged_inputs", body_renamed, cases=_merge_cases()),
+            Stream("alias_inputs", body_alias, cases=_alias_cases())]
